@@ -27,3 +27,7 @@ c13 = B("bounded.c13")
 c09 = B("bounded.c09")
 c02 = B("bounded.c02")
 c15 = B("bounded.c15")
+c01 = B("bounded.c01")
+c06 = B("bounded.c06")
+c19 = B("bounded.c19")
+c20 = B("bounded.c20")
